@@ -50,6 +50,7 @@ type Violation struct {
 	Values  map[string]string `json:"values"`
 	Stack   []string          `json:"stack,omitempty"`
 	Path    int               `json:"path"`
+	Notes   []string          `json:"notes,omitempty"`
 }
 
 type Exec struct {
